@@ -401,7 +401,7 @@ func (e *Exec) yieldPoint(g *Goroutine) {
 	if len(others) == 0 {
 		return
 	}
-	if !e.cfg.SchedAll {
+	if !e.cfg.SchedAll && !e.cfg.SchedYield {
 		// deterministic policy: let the others run first (round robin)
 		g.status = gRunnable
 		s.switchTo(g, others[0], false)
@@ -601,7 +601,24 @@ func (e *Exec) chanClose(fr *frame, c *Chan) {
 	if c.closed {
 		panic(e.goPanic("close of closed channel"))
 	}
+	e.closeCommit(c)
+}
+
+// closeCommit closes c. As in Go, a goroutine already blocked in a select is committed to the first
+// of its cases that becomes ready: selects waiting to receive from c take that case now (they do not
+// get to choose again when they are next scheduled).
+func (e *Exec) closeCommit(c *Chan) {
 	c.closed = true
+	for _, w := range c.recvq {
+		if w.done || w.sel == nil || w.sel.fired {
+			continue
+		}
+		w.sel.fired = true
+		w.sel.chosen = w.idx
+		w.sel.v = nil
+		w.sel.ok = false
+		w.done = true
+	}
 }
 
 func (e *Exec) selectOp(fr *frame, instr *ssa.Select) Value {
